@@ -816,6 +816,21 @@ func enumTables(c *Ctx, rid string) {
 			r.Check(len(other) == 0 && nEmpty > 0, rid, name+": the custom enum_value is used whenever it is non-empty (no other condition on it)", pos,
 				fmt.Sprintf("the emitter's choice between the custom string and the proto value name depends on %v", other))
 		}
+		// the enum's MarshalJSON must be in the method set of a VALUE: encoding/json (used by the unwrap codecs for
+		// sibling fields and map values) calls it for x.Status / map[string]Status only then
+		reEnc := regexp.MustCompile(`^func \(\w+ (\*?)(\w+)\) MarshalJSON\(\)`)
+		nEnc := 0
+		var ptrRecv []string
+		for _, l := range unitLines(units) {
+			if m := reEnc.FindStringSubmatch(l); m != nil {
+				nEnc++
+				if m[1] == "*" {
+					ptrRecv = append(ptrRecv, m[2])
+				}
+			}
+		}
+		r.Check(len(ptrRecv) == 0 && nEnc >= 3, rid, name+": enum MarshalJSON has a value receiver", pos,
+			fmt.Sprintf("MarshalJSON of %v is declared on the pointer: encoding/json does not find it for an enum VALUE (a struct field next to an unwrap map, the values of a root-unwrapped map<string, Enum>) and writes the number instead of the custom string", ptrRecv))
 		_, hasPlain := toJSON["Plain"]
 		r.Check(!hasPlain, rid, name+": an enum without enum_value gets no tables", pos, "tables are emitted for an enum none of whose values carries enum_value: its JSON form would change from the proto3 mapping's")
 	}
